@@ -15,16 +15,22 @@
     REPAIRED code (bd92e3d); the model of the code before it panics:
     [pipeline_no_panic_refuted_pinned] (D07, also reproduced on the real crates by checks/C03.py).
 
-    NOT proved (named runtime behaviour the model does not exhibit): the cost bound and the
-    native stack.  Both are refuted on the real code by checks/C03.py (findings D10: nested
-    content-model groups cost 2^depth; D08: element nesting >= 20000 overflows a 64 MB stack) and
-    stay findings; [depth_unbounded] is the model-level half of D08 (recursion depth = nesting depth,
-    for every depth).  No step-counting semantics is defined, so there is no [cost_refuted] theorem:
-    D10 rests on the measurements of checks/C03.py.  The tie of the panic-site inventory (T4) is
-    [panic_sites_classified]. *)
-From Coq Require Import List NArith.
+    The cost bound and the bounded stack do NOT hold; both are refuted.
+    [cost_refuted] (D10): with [cost] = the number of non-terminal calls of the PEG interpreter
+    (Proofs/PegCost.v: defined by the recursion of [denote], reading every sub-result from
+    [denote]), parsing the well-formed document
+    `<!DOCTYPE a [<!ELEMENT a ((..(a|b)|b)..|b)>]><a/>` with k+1 nested choice groups, 4k+37
+    characters, costs at least 2^(k+1) calls at the fuel [run] uses: the production [cp] tries the
+    sequence alternative first, parses the inner group, fails at `|`, and the choice alternative
+    parses it again.  checks/C03.py measures the same doubling on the real crates (finding D10).
+    [depth_unbounded] (D08): recursion depth = nesting depth, for every depth; the native stack
+    the Rust recursion needs is outside the model, the abort is observed by checks/C03.py on the
+    real code (element nesting >= 20000 overflows a 64 MB stack).  Both stay findings.
+    The tie of the panic-site inventory (T4) is [panic_sites_classified]. *)
+From Coq Require Import List NArith Arith.
 From XmlRs Require Import Base.CPred Model.Peg Gen.GrammarXmlGen Model.ParseActions Model.Info Model.Display
-     Model.PanicSites Proofs.GrammarTermination Proofs.PipelineTotal Proofs.Expansion Proofs.DisplayElem Proofs.DisplayRun.
+     Model.PanicSites Proofs.GrammarTermination Proofs.PipelineTotal Proofs.Expansion Proofs.DisplayElem Proofs.DisplayRun
+     Proofs.PegCost Proofs.CostXml.
 Import ListNotations.
 
 Theorem parser_terminates : forall s, run G_xml G_xml_R nt_document s <> Oof.
@@ -81,6 +87,16 @@ Theorem depth_unbounded : forall n, exists s e i,
   parse_element s = POk (e, []) /\ build_element [] false e = IOk i /\ (n <= item_depth i)%nat.
 Proof. exact depth_unbounded_proof. Qed.
 
+(** D10 at the level of the model: [cost_polynomial] is false.  The documents are well formed
+    (accepted completely: [nested_doc_accepted] for k = 3) and of length 4k + 37 *)
+Theorem cost_refuted : forall k,
+  length (nested_doc k) = (4 * k + 37)%nat
+  /\ (2 ^ S k <= cost G_xml (fuel_bound G_xml_R (nested_doc k)) (NT nt_document) (nested_doc k))%nat.
+Proof. intros k. split; [apply nested_doc_length|apply run_cost_exponential]. Qed.
+
+Example nested_doc_accepted : exists d, pipeline_parse (nested_doc 3) = OOk ([], d).
+Proof. eexists. vm_compute. reflexivity. Qed.
+
 (** T4: the inventory of panic sites regenerated from the sources is the hand-classified one *)
 Theorem panic_sites_classified : sites_match = true.
 Proof. vm_compute. reflexivity. Qed.
@@ -91,3 +107,4 @@ Print Assumptions expansion_terminates.
 Print Assumptions expansion_terminates_pinned.
 Print Assumptions expansion_diverges_pinned.
 Print Assumptions depth_unbounded.
+Print Assumptions cost_refuted.
